@@ -32,6 +32,14 @@ namespace foonathan { namespace memory { namespace verif_inline_probe
             zz_out_probe(v);
             return v;
         }
+        std::size_t outer_closure(std::size_t n)         // a closure defined and called here: its assignment to the captured local is the caller's
+        {
+            std::size_t acc = 0u;
+            auto        add = [&](std::size_t k) { acc = acc + k + cur_; };
+            add(n);
+            add(1u);
+            return acc;
+        }
         void outer_other(probe& other)                   // helper called on another object of the same class
         {
             other.zz_reset_probe();
@@ -60,6 +68,6 @@ namespace foonathan { namespace memory { namespace verif_inline_probe
     inline std::size_t use(probe& a, probe& b)
     {
         a.outer_other(b);
-        return a.outer_member(3u) + a.outer_free(5u) + a.outer_known(1u) + a.outer_out();
+        return a.outer_member(3u) + a.outer_free(5u) + a.outer_known(1u) + a.outer_out() + a.outer_closure(2u);
     }
 }}}
